@@ -731,6 +731,54 @@ def guided_paths(kernel, exr, argset, env, setup_fn, opts, mode, W, res):
     rng = random.Random((opts["seed"] << 8) ^ 0x5EED)
     seeds = kernel.guided_seeds(rng)
     exr.merge = False
+    exr.record_trace = True
+    # phase 1 (optional): cheap fully concrete runs of many random inputs to discover rarely taken traces;
+    # one seed per distinct trace is then followed symbolically
+    if getattr(kernel, "guided_random", None):
+        gen, count = kernel.guided_random
+        seen_tr = set()
+        extra = []
+        t_lim = time.time() + opts.get("kernel_budget", 120) * 0.25
+        cex = symex.Executor(exr.mod, mode=mode, unwind=exr.unwind, max_paths=10)
+        cex.merge = False
+        cex.record_trace = True
+        for _ in range(count):
+            if time.time() > t_lim:
+                break
+            inp = gen(rng)
+
+            def csetup(e_, st_, _inp=inp):
+                args_ = []
+                for a in kernel.args:
+                    nb_ = core.bits(a.ctype)
+                    if a.kind == "val":
+                        args_.append(IV(nb_, c=_inp[a.name]))
+                    elif a.kind == "ref":
+                        oid = e_.new_obj(st_, 16, "arg:" + a.name)
+                        st_.mem[oid].cells[0] = (16, IV(nb_, c=_inp[a.name]))
+                        args_.append(symex.Ptr(oid, IV(64, c=0)))
+                    else:
+                        esz = (nb_ + 7) // 8
+                        oid = e_.new_obj(st_, esz * a.n, "arg:" + a.name)
+                        if a.init == "sym":
+                            for i in range(a.n):
+                                st_.mem[oid].cells[i * esz] = (esz, IV(nb_, c=_inp["%s_%d" % (a.name, i)]))
+                        args_.append(symex.Ptr(oid, IV(64, c=0)))
+                if kernel.wide_ret():
+                    oid = e_.new_obj(st_, 16, "ret_out")
+                    args_.append(symex.Ptr(oid, IV(64, c=0)))
+                return args_
+            try:
+                ps_ = cex.run(kernel.name, None, setup=csetup)
+            except Exception:
+                continue
+            for p_ in ps_:
+                tr = (p_.kind, getattr(p_, "trace", ()))
+                if tr not in seen_tr:
+                    seen_tr.add(tr)
+                    extra.append(inp)
+        res["notes"].append("concrete trace discovery: %d distinct traces" % len(seen_tr))
+        seeds = list(seeds) + extra
     seen = {}
     nseed = 0
     nskip = 0
